@@ -1,7 +1,7 @@
 import pytest
 
 @pytest.fixture
-def tp1_sub():
+def ws_sib_helper_fx():
     """DOC8"""
     return 8
 
